@@ -583,6 +583,15 @@ def num_binop(I, op, a, b):
             if not isinstance(b, Sym) and b == 0:
                 I.throw('ZeroDivisionError', 'division by zero')
             return mk(x / y, 'real')
+        if op in ('%', '//'):
+            # Python: x // y = floor(x / y), x % y = x - y * floor(x / y) (sign of the divisor); floor is z3's ToInt on reals
+            if isinstance(b, Sym):
+                if not I.ctx.branch(y != 0):
+                    I.throw('ZeroDivisionError', 'float modulo' if op == '%' else 'float floor division by zero')
+            elif b == 0:
+                I.throw('ZeroDivisionError', 'float modulo' if op == '%' else 'float floor division by zero')
+            fl = z3.ToReal(z3.ToInt(x / y))
+            return mk(fl if op == '//' else x - y * fl, 'real')
         raise Unsupported(f'real op {op}')
     x, y = zint(a), zint(b)
     if op == '+':
@@ -1141,8 +1150,10 @@ def rope_contains(I, rope, item):
                 return True
         elif p.kind in ('f', 'exact'):
             if item in FMT_ALPHABET:
-                if item == '.' and isinstance(p.prec, int) and p.prec > 0:
+                if item == '.' and p.ndots() == 1:
                     return True
+                if item == '.' and p.ndots() == 0:
+                    continue
                 raise Unsupported(f'char {item!r} membership in formatted number')
         else:
             raise Unsupported('substring test on opaque text')
